@@ -403,6 +403,37 @@ def load_known(pid):
 
 # --------------------------------------------------------------------------- main
 
+def _do_job(job):
+    """One harness run + model run + comparison (top level: runs in a worker process)."""
+    fam, tag, args, wdir, model_ok, vprefixes = job
+    ip = os.path.join(wdir, "%s.%s.impl" % (fam["name"], tag))
+    mp = os.path.join(wdir, "%s.%s.model" % (fam["name"], tag))
+    try:
+        rc, err = run_impl(fam["name"], args, ip, timeout=fam.get("timeout", 7200))
+    except subprocess.TimeoutExpired:
+        return (fam, tag), None, "harness timed out"
+    if rc != 0:
+        return (fam, tag), None, "harness rc=%d %s" % (rc, err[-300:])
+    mpath = None
+    if model_ok:
+        try:
+            rc, err = run_model(fam.get("model", fam["name"]), ip, mp, timeout=fam.get("timeout", 7200))
+        except subprocess.TimeoutExpired:
+            return (fam, tag), None, "wpmodel timed out"
+        if rc != 0:
+            return (fam, tag), None, "wpmodel rc=%d %s" % (rc, err[-300:])
+        mpath = mp
+    res = compare(ip, mpath, vprefixes, obs_prefixes=fam.get("obs_prefixes"))
+    meta, stats = read_meta(ip)
+    res["meta"], res["stats"] = meta, stats
+    for p in (ip, mp):
+        try:
+            os.remove(p)
+        except OSError:
+            pass
+    return (fam, tag), res, None
+
+
 def family_runs(spec, tier, seed):
     runs = []
     for fam in spec["families"]:
@@ -413,8 +444,7 @@ def family_runs(spec, tier, seed):
             args = ["--seed", str(seed * 1000 + s), "--cases", str(per)]
             if tier == "thorough":
                 args.append("--thorough")
-            if s > 0:
-                args.append("--no-enum")
+            args += ["--shard", str(s), str(shards)]
             args += fam.get("extra_args", [])
             runs.append((fam, s, args))
     return runs
@@ -439,8 +469,10 @@ def main(argv):
         logs.append("[%6.1fs] %s" % (time.time() - t0, s))
         sys.stderr.write(logs[-1] + "\n")
 
-    os.makedirs(os.path.join(ROOT, "evidence"), exist_ok=True)
-    os.makedirs(os.path.join(ROOT, "replays"), exist_ok=True)
+    # runs against a scratch copy of the repository must not overwrite the committed evidence
+    out_root = ROOT if REPO == "/repo" else os.path.join(WORK, "scratch-out")
+    os.makedirs(os.path.join(out_root, "evidence"), exist_ok=True)
+    os.makedirs(os.path.join(out_root, "replays"), exist_ok=True)
     wdir = os.path.join(WORK, pid)
     os.makedirs(wdir, exist_ok=True)
 
@@ -467,32 +499,9 @@ def main(argv):
         for fam, s, args in family_runs(spec, tier, seed):
             jobs.append((fam, "s%d" % s, args))
 
-        def do_job(job):
-            fam, tag, args = job
-            ip = os.path.join(wdir, "%s.%s.impl" % (fam["name"], tag))
-            mp = os.path.join(wdir, "%s.%s.model" % (fam["name"], tag))
-            rc, err = run_impl(fam["name"], args, ip, timeout=fam.get("timeout", 7200))
-            if rc != 0:
-                return job, None, "harness rc=%d %s" % (rc, err[-300:])
-            mpath = None
-            if ps["model_ok"]:
-                rc, err = run_model(fam["model"] if "model" in fam else fam["name"], ip, mp, timeout=fam.get("timeout", 7200))
-                if rc != 0:
-                    return job, None, "wpmodel rc=%d %s" % (rc, err[-300:])
-                mpath = mp
-            res = compare(ip, mpath, vprefixes, obs_prefixes=fam.get("obs_prefixes"))
-            meta, stats = read_meta(ip)
-            res["meta"], res["stats"] = meta, stats
-            for p in (ip, mp):
-                try:
-                    os.remove(p)
-                except OSError:
-                    pass
-            return job, res, None
-
-        with concurrent.futures.ThreadPoolExecutor(max_workers=NCPU) as ex:
-            for job, res, err in ex.map(do_job, jobs):
-                fam, tag, args = job
+        jobs = [(fam, tag, args, wdir, ps["model_ok"], vprefixes) for fam, tag, args in jobs]
+        with concurrent.futures.ProcessPoolExecutor(max_workers=NCPU) as ex:
+            for (fam, tag), res, err in ex.map(_do_job, jobs):
                 if err:
                     run_errors.append("%s/%s: %s" % (fam["name"], tag, err))
                     continue
@@ -578,6 +587,8 @@ def main(argv):
             replay["note"] = ("no input violating the property itself was found; the listed theorem / side condition / "
                               "correspondence stream no longer checks, so the property is no longer shown to hold")
         replay_path = os.path.join("replays", "%s-%s-%d.json" % (pid, tier, seed))
+        if out_root != ROOT:
+            replay_path = os.path.join(out_root, replay_path)
         with open(os.path.join(ROOT, replay_path), "w") as f:
             json.dump(replay, f, indent=1)
 
@@ -618,7 +629,7 @@ def main(argv):
         wall_s=round(time.time() - t0, 2),
         violations=len(new_viol) + (1 if broken and not new_viol else 0),
     )
-    with open(os.path.join(ROOT, "evidence", pid + ".json"), "w") as f:
+    with open(os.path.join(out_root, "evidence", pid + ".json"), "w") as f:
         json.dump(ev, f, indent=1)
 
     if verdict_violation:
@@ -645,7 +656,7 @@ def search_failing_input(pid, spec, mismatches, seed, tier, vprefixes, log, know
         shards = min(NCPU, 16)
         per = max(1, n // shards)
         for s in range(shards):
-            jobs.append((fam, s, ["--seed", str(seed * 1000 + 500 + s), "--cases", str(per), "--thorough"] + (["--no-enum"] if s else [])
+            jobs.append((fam, s, ["--seed", str(seed * 1000 + 500 + s), "--cases", str(per), "--thorough", "--shard", str(s), str(shards)]
                          + fam.get("extra_args", [])))
 
     def do(job):
